@@ -90,7 +90,7 @@ def gen(rng, tier):
         tables = list(packaged_cfg().keys())
     except Exception:
         tables = list(FALLBACK_TABLES)
-    n = 1 if tier == 'quick' else 12
+    n = 1 if tier == 'quick' else 30
 
     def base(**kw):
         c = {'kind': 'rows', 'seed': rng.randrange(1 << 30), 'enc': rng.choice(['latin_1', 'cp500', 'cp500', 'latin_1', None, 'cp037']),
